@@ -888,6 +888,9 @@ std::string build_conc_case(const std::string &kind_in) {
     std::string tok = fmt("tT%dc%d", t, ++counter[t]);
     int c = uni(0, 99);
     if (c20busy && c < 70) return tok + fmt("+r%d.%d", uni(0, 9999), uni(3000, 12000));
+    // now and then a value above the 128 KiB by which a group commit may exceed a small leader's batch, so that
+    // ldb_build_batch_group's size cap ends a group in front of a queued follower (after seed C04e)
+    if ((c04 || kind == "C08") && chance(4)) return tok + fmt("+r%d.%d", uni(0, 9999), uni(70000, 150000));
     if (c < 50) return tok;
     if (c < 85) return tok + fmt("+r%d.%d", uni(0, 9999), uni(10, 1500));
     return tok + fmt("+r%d.%d", uni(0, 9999), c09 ? uni(9000, 30000) : uni(3000, 12000));
